@@ -3,7 +3,9 @@
    when it is exhausted; the statements below say that the stated fuel - a function of the input length -
    always suffices, and bound the number of items yielded.  Statements only; every proof is [exact <lemma>].
    The traversals of the directory parsers (TLV parser, resource tree, export binary search, scanner) are
-   stated in the files of their own properties; this file states the cross-cutting core. *)
+   stated in the files of their own properties; this file states the cross-cutting core.
+   Second part (from "work bounds" on): explicit WORK bounds by ghost step counters (Spec/WorkSpec.v; proofs in
+   Proofs/WorkProofs.v, CountProofs.v, ScanWorkProofs.v) and the item-count bounds of the DESIGN.md table. *)
 From PV.Model Require Import Machine Mapping Views Relocs Rich Strings Pattern Exec ScanView CStrFmt.
 From PV.Spec Require Import SafetySpec RelocSpec.
 From PV.Proofs Require SafetyProofs BoundsProofs RelocsProofs RichProofs StringsProofs PatternProofs ExecProofs ViewsProofs CStrFmtProofs.
@@ -128,6 +130,254 @@ Print Assumptions C03_F14_build_orig_refuted.
 Theorem C03_F15_cstr_debug_orig_refuted : forall fuel, cstr_debug_orig fuel [127] = Fault OutOfFuel.
 Proof. exact CStrFmtProofs.cstr_debug_orig_refuted. Qed.
 Print Assumptions C03_F15_cstr_debug_orig_refuted.
+
+(* ================= work bounds (ghost step counters, Spec/WorkSpec.v) ================= *)
+From PV.Spec Require WorkSpec PatSyntax.
+From PV.Proofs Require WorkProofs.
+
+(* Exec::exec with a step counter: one unit per atom executed and per iteration of the retry loop of exec_many,
+   summed over all nested invocations.  Erasing the counter gives back the model of Scanner::exec: same verdict,
+   same captures, same fuel. *)
+Theorem C03_exec_steps_erasure : forall sc pat cursor save,
+  match WorkSpec.run_exec_steps sc pat cursor save with
+  | Ok (ok, save', _) => run_exec sc pat cursor save = Ok (ok, save')
+  | Err e => run_exec sc pat cursor save = Err e
+  | Fault f => run_exec sc pat cursor save = Fault f
+  end.
+Proof. exact WorkProofs.run_exec_steps_erase. Qed.
+Print Assumptions C03_exec_steps_erasure.
+
+(* total work of Scanner::exec on a view.  [wcost cf smax pat 0] is defined by recursion over the pattern:
+     plain atom: 1 + rest;   Many lim: (f + 1) * (1 + rest);   Case: 1 + cf * rest
+   where f = slice length if lim = 0, else min (slice length) (256 * largest Rangext operand before the atom + lim)
+   - the number of cursor positions the skip range can try.  Its closed form is |pat| * prod over the Many atoms of
+   (f_i + 1): ONE FACTOR PER SKIP-RANGE OPERATOR, which is inherent in "first match, skipping as little as
+   possible" (every position of an outer range restarts the inner ones); linear (<= |pat|) without skip ranges.
+   cf = 1 needs the Case blocks to be properly nested ([cases_nested], a decidable check on the atom list);
+   for arbitrary atom lists every Case atom costs a factor 2 (see the two _refuted lemmas below). *)
+Theorem C03_exec_work_bounded : forall v pat cursor save,
+  ViewsProofs.view_ok v -> v_len v < W32 -> SafetySpec.placed (v_addr v) (v_len v) ->
+  exists ok save' n,
+    WorkSpec.run_exec_steps (scan_of_view v) pat cursor save = Ok (ok, save', n) /\
+    view_exec v pat cursor save = Ok (ok, save') /\
+    n <= WorkSpec.wcost 2 (v_len v) pat 0 /\
+    WorkSpec.wcost 2 (v_len v) pat 0 <= lenN pat * WorkSpec.wprod 2 (v_len v) pat 0 /\
+    (WorkSpec.cases_nested pat = true ->
+       n <= WorkSpec.wcost 1 (v_len v) pat 0 /\
+       WorkSpec.wcost 1 (v_len v) pat 0 <= lenN pat * WorkSpec.wprod 1 (v_len v) pat 0 /\
+       (WorkProofs.no_many pat = true -> n <= lenN pat)).
+Proof. exact WorkProofs.view_exec_work. Qed.
+Print Assumptions C03_exec_work_bounded.
+
+(* the same for any implementation of the Scan trait whose slices are at most smax long *)
+Theorem C03_exec_work_nested : forall sc pat smax,
+  (forall cur l, sc_slice_len sc cur = Some l -> l <= smax) -> WorkSpec.cases_nested pat = true ->
+  forall cursor save ok save' n, WorkSpec.run_exec_steps sc pat cursor save = Ok (ok, save', n) ->
+    n <= WorkSpec.wcost 1 smax pat 0 /\ WorkSpec.wcost 1 smax pat 0 <= lenN pat * WorkSpec.wprod 1 smax pat 0.
+Proof. exact WorkProofs.exec_work_nested. Qed.
+Print Assumptions C03_exec_work_nested.
+Theorem C03_exec_work_any_atoms : forall sc pat smax,
+  (forall cur l, sc_slice_len sc cur = Some l -> l <= smax) ->
+  forall cursor save ok save' n, WorkSpec.run_exec_steps sc pat cursor save = Ok (ok, save', n) ->
+    n <= WorkSpec.wcost 2 smax pat 0 /\ WorkSpec.wcost 2 smax pat 0 <= lenN pat * WorkSpec.wprod 2 smax pat 0.
+Proof. exact WorkProofs.exec_work_any. Qed.
+Print Assumptions C03_exec_work_any_atoms.
+(* every factor is at most the longest slice, whatever the operands *)
+Theorem C03_exec_many_factor_le : forall smax x lim, WorkSpec.many_factor smax x lim <= smax.
+Proof. exact WorkProofs.many_factor_le. Qed.
+Print Assumptions C03_exec_many_factor_le.
+
+(* what the static check means: an invocation started right after a Case atom can only fail inside the block of
+   that Case (so the else-branch never re-executes atoms the failed attempt already went through) *)
+Theorem C03_exec_nesting_check_sound : forall sc pat, WorkSpec.cases_nested pat = true ->
+  forall pc k, nth_error pat pc = Some (Case k) ->
+  forall fuel cur mask ext save p1 c1 s1,
+    exec sc pat fuel (S pc) cur mask ext save = Ok (false, p1, c1, s1) -> (p1 <= S pc + N.to_nat k)%nat.
+Proof. exact WorkProofs.cases_nested_sound. Qed.
+Print Assumptions C03_exec_nesting_check_sound.
+
+(* REFUTED without the nesting hypothesis: 12 hand-written Case(0) atoms and a byte that does not match take
+   2^13 - 1 steps (the cf = 2 bound is attained) ... *)
+Theorem C03_exec_work_case_chain_refuted :
+  WorkProofs.no_many (WorkProofs.case_chain 12) = true /\ lenN (WorkProofs.case_chain 12) = 13 /\
+  WorkSpec.cases_nested (WorkProofs.case_chain 12) = false /\
+  WorkSpec.run_exec_steps (scan_of_view WorkProofs.zero_view) (WorkProofs.case_chain 12) 256 [0] = Ok (false, [0], 8191) /\
+  WorkSpec.wcost 2 4096 (WorkProofs.case_chain 12) 0 = 8191.
+Proof. exact WorkProofs.exec_work_case_chain_refuted. Qed.
+Print Assumptions C03_exec_work_case_chain_refuted.
+(* ... and so does a pattern STRING the parser accepts: k groups "(%{|?)" followed by "01" (a brace left open inside
+   an alternative; the parser resets its depth at '|' instead of rejecting it): 7 * 2^k - 5 steps for 6k + 2
+   characters, on an image of zeros.  FINDING: super-polynomial work in the pattern length. *)
+Theorem C03_exec_work_unbalanced_brace_refuted :
+  parse (WorkProofs.brace_text 10) = Ok (inr (WorkProofs.brace_pat 10)) /\
+  parse (WorkProofs.brace_text 12) = Ok (inr (WorkProofs.brace_pat 12)) /\
+  WorkProofs.no_many (WorkProofs.brace_pat 10) = true /\ WorkProofs.no_many (WorkProofs.brace_pat 12) = true /\
+  lenN (WorkProofs.brace_pat 10) = 62 /\ lenN (WorkProofs.brace_pat 12) = 74 /\
+  WorkSpec.cases_nested (WorkProofs.brace_pat 10) = false /\ WorkSpec.cases_nested (WorkProofs.brace_pat 12) = false /\
+  WorkSpec.run_exec_steps (scan_of_view WorkProofs.zero_view) (WorkProofs.brace_pat 10) 256 [0] = Ok (false, [256], 7163) /\
+  WorkSpec.run_exec_steps (scan_of_view WorkProofs.zero_view) (WorkProofs.brace_pat 12) 256 [0] = Ok (false, [256], 28667).
+Proof. exact WorkProofs.exec_work_unbalanced_brace_refuted. Qed.
+Print Assumptions C03_exec_work_unbalanced_brace_refuted.
+
+(* OPEN: C03_exec_compiled_patterns_nested : forall a, PatSyntax.wf a -> WorkSpec.cases_nested (PatSyntax.compile a) = true
+   (every compiled AST of the documented syntax passes the nesting check: braces are balanced inside alternatives by
+   construction of the AST).  Checked on the example ASTs of C11 only: *)
+Theorem C03_exec_nesting_check_examples :
+  forallb (fun a => WorkSpec.cases_nested (PatSyntax.compile a))
+   [ [PatSyntax.IByte 0x83; PatSyntax.IByte 0xc0; PatSyntax.IByte 0x2a; PatSyntax.IAlt [PatSyntax.IByte 0x6a; PatSyntax.IWild 1] [[PatSyntax.IByte 0x68; PatSyntax.IWild 4]]; PatSyntax.IByte 0xe8];
+     [PatSyntax.IByte 1; PatSyntax.IAlt [PatSyntax.IByte 2; PatSyntax.IWild 1] [[PatSyntax.IByte 3]; []]; PatSyntax.IWild 2; PatSyntax.ISkip 0; PatSyntax.IWild 1; PatSyntax.IStr []; PatSyntax.IByte 9];
+     [PatSyntax.IByte 1; PatSyntax.ISub PatSyntax.JP [PatSyntax.IAlt [PatSyntax.ISave; PatSyntax.ISave] [[PatSyntax.IRead PatSyntax.RU16]; [PatSyntax.IZero; PatSyntax.ISave; PatSyntax.ISave]]; PatSyntax.ISave]; PatSyntax.ISave; PatSyntax.IWild 2];
+     [PatSyntax.IAlt [PatSyntax.IAlt [PatSyntax.IByte 1] [[PatSyntax.IByte 2; PatSyntax.IRange 1 3]]; PatSyntax.IWild 1] [[PatSyntax.ISub PatSyntax.J1 [PatSyntax.IWild 1]; PatSyntax.IWild 1]]; PatSyntax.IWild 1; PatSyntax.IByte 7; PatSyntax.ISub PatSyntax.J4 [PatSyntax.ISave]];
+     [PatSyntax.IAlt [PatSyntax.ISub PatSyntax.J1 [PatSyntax.IAlt [PatSyntax.IByte 1] [[PatSyntax.IRange 0 300; PatSyntax.IByte 2]]]; PatSyntax.IJump PatSyntax.J4; PatSyntax.IByte 3] [[PatSyntax.IJump PatSyntax.JP; PatSyntax.IAlt [] [[]]]; [PatSyntax.IRange 2 9]]; PatSyntax.IByte 4];
+     [PatSyntax.ISave; PatSyntax.IWild 1; PatSyntax.IRange 2 9]; [] ] = true.
+Proof. exact WorkProofs.cases_nested_examples. Qed.
+Print Assumptions C03_exec_nesting_check_examples.
+
+Example C03_exec_work_nonvacuous :
+  let pat := PatSyntax.compile [PatSyntax.IByte 0; PatSyntax.IRange 0 8;
+                                PatSyntax.IAlt [PatSyntax.IByte 1] [[PatSyntax.IByte 0; PatSyntax.IRange 0 300; PatSyntax.IByte 2]];
+                                PatSyntax.IByte 3] in
+  pat = [Save 0; Byte 0; Many 8; Case 2; Byte 1; Break 5; Nop; Byte 0; Rangext 1; Many 44; Byte 2; Byte 3] /\
+  WorkSpec.cases_nested pat = true /\ WorkProofs.no_many pat = false /\
+  WorkSpec.run_exec_steps (scan_of_view WorkProofs.zero_view) pat 256 [0] = Ok (false, [256], 2459) /\
+  WorkSpec.wcost 1 4096 pat 0 = 8192 /\ lenN pat * WorkSpec.wprod 1 4096 pat 0 = 32508.
+Proof. exact WorkProofs.exec_work_nonvacuous. Qed.
+
+(* ================= item counts of the directory traversals (Proofs/CountProofs.v) ================= *)
+From PV.Proofs Require CountProofs.
+
+(* TLV parser: an item that parses consumes at least 4 words, so at most len/4 items parse per level (4 fixed
+   levels: VS_VERSIONINFO, *FileInfo, StringTable / Var, String) ... *)
+Theorem C03_tlv_items_bounded : forall vl ws, VersionInfoProofs.len_ok ws ->
+  4 * lenN (VersionInfoProofs.items vl ws) <= lenN ws.
+Proof. exact CountProofs.Tlv.tlv_items_bounded. Qed.
+Print Assumptions C03_tlv_items_bounded.
+(* ... and the iterator is exhausted after at most len/4 + 1 results (fuel |ws| + 1 suffices); at most one is an error *)
+Theorem C03_tlv_parser_run_bounded : forall vl ws, VersionInfoProofs.len_ok ws ->
+  exists l, WorkSpec.parser_run (S (length ws)) vl ws = Some l /\
+    4 * lenN (filter WorkSpec.is_ok l) <= lenN ws /\ lenN l <= lenN ws / 4 + 1.
+Proof. exact CountProofs.Tlv.tlv_parser_run_bounded. Qed.
+Print Assumptions C03_tlv_parser_run_bounded.
+
+(* binary searches: floor(log2 n) + 2 iterations of the loop (the last one sees the empty interval), on ANY table *)
+Theorem C03_exception_search_log : forall t pc,
+  let fuel := S (S (N.to_nat (N.log2 (lenN t)))) in
+  Dirs.index_of t pc = Dirs.bsearch fuel (Dirs.cmp_rf pc) t 0 (lenN t) /\
+  Dirs.bsearch fuel (Dirs.cmp_rf pc) t 0 (lenN t) <> Fault OutOfFuel.
+Proof. exact CountProofs.DirSearch.index_of_log. Qed.
+Print Assumptions C03_exception_search_log.
+From PV.Model Require Exports.
+Theorem C03_export_name_search_log : forall cstr t n,
+  Exports.name cstr t n =
+  Exports.bsearch cstr t (S (S (N.to_nat (N.log2 (lenN (Exports.t_names t)))))) 0 (lenN (Exports.t_names t)) n.
+Proof. exact CountProofs.ExpSearch.name_log. Qed.
+Print Assumptions C03_export_name_search_log.
+
+(* sentinel scans: the result index r satisfies (r + 1) * size <= slice length, so at most blen/size iterations;
+   the NUL of a C string is found among the len bytes of the slice *)
+Theorem C03_scan_f_bound : forall get p off blen size fuel n r, 0 < size ->
+  scan_f get fuel p off blen size n = Ok r -> n <= r /\ (r + 1) * size <= blen.
+Proof. exact CountProofs.Scans.scan_f_bound. Qed.
+Print Assumptions C03_scan_f_bound.
+Theorem C03_find_nul_bound : forall get n off i, find_nul get off n = Some i -> i < N.of_nat n.
+Proof. exact CountProofs.Scans.find_nul_bound. Qed.
+Print Assumptions C03_find_nul_bound.
+
+(* Rich header: one record per pair of dwords between the 4-dword header and the 2-dword trailer, all before e_lfanew *)
+Theorem C03_rich_records_count : forall image s e, try_from image = Ok (s, e) ->
+  length (records image (s, e)) = ((e - s - 6) / 2)%nat /\
+  exists e_lfanew, nth_error image 15 = Some e_lfanew /\
+    (2 * length (records image (s, e)) + 6 + 16 <= N.to_nat (e_lfanew / 4))%nat.
+Proof. exact CountProofs.RichCount.records_count_try_from. Qed.
+Print Assumptions C03_rich_records_count.
+
+(* resources: the traversal, the tree printer and fsck look at no more than len/8 entries in total and nest at
+   most 32 deep (the depth argument of walk / draw / fsck_dir is the structural recursion argument), whatever
+   the offsets say - cycles and k-fold shared children included.  fsck_c is fsck with a visit counter. *)
+Theorem C03_resources_walk_bounded : forall s r lvl,
+  WorkSpec.witem_count (fst (Resources.walk 32 s r lvl (Resources.fsck_budget s))) <= Resources.rs_len s / 8.
+Proof. exact CountProofs.ResCount.walk_budget. Qed.
+Print Assumptions C03_resources_walk_bounded.
+Theorem C03_resources_display_bounded : forall s, Resources.display_lines s <= Resources.rs_len s / 8 + 1.
+Proof. exact CountProofs.ResCount.display_lines_bound. Qed.
+Print Assumptions C03_resources_display_bounded.
+Theorem C03_resources_fsck_visits_bounded : forall s,
+  fst (WorkSpec.fsck_c s) = Resources.fsck s /\ snd (WorkSpec.fsck_c s) <= Resources.rs_len s / 8.
+Proof. exact CountProofs.ResCount.fsck_c_spec. Qed.
+Print Assumptions C03_resources_fsck_visits_bounded.
+
+(* relocation directory: a block costs its 8-byte header and 2 bytes per word, all inside the directory, so the fold
+   decodes at most len/2 words and yields at most len/2 (rva, type) pairs *)
+Theorem C03_reloc_fold_bounded : forall data, lenN data + 3 < W64 ->
+  exists bs flat, blocks data = Ok bs /\ fold_pairs data = Ok flat /\
+    8 * lenN bs + 2 * CountProofs.RelocCount.total_words bs <= lenN data /\
+    lenN flat <= CountProofs.RelocCount.total_words bs /\ 2 * lenN flat <= lenN data.
+Proof. exact CountProofs.RelocCount.fold_bounded. Qed.
+Print Assumptions C03_reloc_fold_bounded.
+
+(* exception and debug directories: Size/12 and Size/28 records (restated from C15) *)
+Theorem C03_exception_count : forall v va size r, Dirs.exception_try_from v (Some (va, size)) = Ok r ->
+  Mapping.r_len r = size /\ length (Dirs.exception_functions v r) = N.to_nat (size / 12).
+Proof. exact CountProofs.DirCount.exception_count. Qed.
+Print Assumptions C03_exception_count.
+Theorem C03_debug_count : forall v va size r, Dirs.debug_try_from v (Some (va, size)) = Ok r ->
+  Mapping.r_len r = size /\ length (Dirs.debug_dirs v r) = N.to_nat (size / 28).
+Proof. exact CountProofs.DirCount.debug_count. Qed.
+Print Assumptions C03_debug_count.
+
+(* ================= string enumerator: work of a full iteration ================= *)
+(* next_c / enumerate_c are Model/Strings.v next / enumerate with the number of bytes looked at.  One call examines
+   exactly the bytes between the old and the new offset (offset strictly increases when an item is returned);
+   iteration to exhaustion examines every byte exactly once: total work = len, whatever the number of items
+   (so certainly <= 2 * len + items). *)
+Theorem C03_strings_next_work : forall c base bytes offset, offset <= lenN bytes ->
+  fst (WorkSpec.next_c c base bytes offset) = Strings.next c base bytes offset /\
+  match WorkSpec.next_c c base bytes offset with
+  | (Some (_, off'), n) => offset < off' /\ off' <= lenN bytes /\ n = off' - offset
+  | (None, n) => n = lenN bytes - offset
+  end.
+Proof. exact CountProofs.StrWork.next_work. Qed.
+Print Assumptions C03_strings_next_work.
+Theorem C03_strings_enumerate_work : forall c base bytes,
+  exists l, WorkSpec.enumerate_c c base bytes = Ok (l, lenN bytes) /\ enumerate c base bytes = Ok l.
+Proof. exact CountProofs.StrWork.enumerate_work. Qed.
+Print Assumptions C03_strings_enumerate_work.
+
+(* ================= Matches::next: candidates per call and per scan ================= *)
+From PV.Model Require Scanner.
+From PV.Proofs Require ScanWorkProofs ScannerIterProofs.
+(* `hits` is the implementation's own counter of Scanner::exec invocations (incremented once before each).  One call
+   of Matches::next hands at most (new range.start - old range.start) candidates to exec, and range.start never
+   passes max(range.start, range.end): at most the remaining range length per call ... *)
+Theorem C03_scanner_candidates_per_call : forall v pat, ViewsProofs.view_ok v -> v_len v < W32 ->
+  forall st save, Scanner.m_end st < W32 -> Scanner.m_hits st <= Scanner.m_start st ->
+  exists ok st' save', Scanner.next v pat st save = Ok (ok, st', save') /\
+    Scanner.m_hits st <= Scanner.m_hits st' /\
+    Scanner.m_hits st' - Scanner.m_hits st <= Scanner.m_start st' - Scanner.m_start st /\
+    Scanner.m_start st <= Scanner.m_start st' /\
+    Scanner.m_start st' <= N.max (Scanner.m_start st) (Scanner.m_end st).
+Proof. exact ScanWorkProofs.next_candidates_bounded. Qed.
+Print Assumptions C03_scanner_candidates_per_call.
+(* ... and over ANY number of calls of one iteration the total is at most the distance range.start has moved, i.e. at
+   most the length of the range (each candidate costs at most the exec bound above) *)
+Theorem C03_scanner_candidates_per_scan : forall v pat, ViewsProofs.view_ok v -> v_len v < W32 ->
+  forall n st save l, Scanner.m_end st < W32 -> Scanner.m_hits st <= Scanner.m_start st ->
+  Scanner.iterate n v pat st save = Ok l ->
+    let st' := ScanWorkProofs.final_state l st in
+    Scanner.m_hits st <= Scanner.m_hits st' /\
+    Scanner.m_hits st' - Scanner.m_hits st <= Scanner.m_start st' - Scanner.m_start st /\
+    Scanner.m_start st <= Scanner.m_start st' /\
+    Scanner.m_start st' <= N.max (Scanner.m_start st) (Scanner.m_end st).
+Proof. exact ScanWorkProofs.iterate_candidates_bounded. Qed.
+Print Assumptions C03_scanner_candidates_per_scan.
+(* (range.end - range.start) + 1 calls exhaust the iteration (restated from C10) *)
+Theorem C03_scanner_calls_to_exhaustion : forall v pat, ViewsProofs.view_ok v -> v_len v < W32 ->
+  forall n st save, Scanner.m_end st < W32 -> Scanner.m_hits st <= Scanner.m_start st ->
+  (N.to_nat (Scanner.m_end st - Scanner.m_start st) < n)%nat ->
+  exists l cs, Scanner.iterate n v pat st save = Ok l /\
+    ScannerIterProofs.run_sound v pat (Scanner.m_start st) (Scanner.m_end st) l cs.
+Proof. exact ScannerIterProofs.iteration_sound. Qed.
+Print Assumptions C03_scanner_calls_to_exhaustion.
 
 Example C03_nonvacuous :
   cstr_debug [65; 127; 10; 200; 34] = Ok [34; 65; 92;120;55;70; 92;120;48;65; 92;120;67;56; 92;34; 34] /\
